@@ -152,8 +152,14 @@ class StepOperationExecutor(OperationExecutor[T]):
         ):
             return CheckResult.create_is_ready_to_execute(checkpointed_result)
 
-        # Create START checkpoint if not exists
-        if not checkpointed_result.is_existent():
+        # Create START checkpoint if not exists, or if a retry attempt is about to begin:
+        # a READY step (retry timer fired) has no START for the new attempt yet, so without
+        # it an interrupted AT_MOST_ONCE retry attempt could not be told from one never started.
+        is_ready_for_retry: bool = (
+            checkpointed_result.is_started_or_ready()
+            and not checkpointed_result.is_started()
+        )
+        if not checkpointed_result.is_existent() or is_ready_for_retry:
             start_operation: OperationUpdate = OperationUpdate.create_step_start(
                 identifier=self.operation_identifier,
             )
